@@ -16,6 +16,7 @@ APIS = ("rollout_carry", "rollout_full", "run_jit", "gym_jit")
 def make_plan(seed: int, tier: str, opts: dict) -> dict:
     r = random.Random(seed)
     spec = common.gen_supported_spec(r, max_nodes=opts.get("max_nodes", 4), tie_p=0.3, overrun_bias=0.7)
+    fast = False
     if r.random() < opts.get("fast_sink_p", 0.15):
         from simrex import spec as _sp2
 
@@ -23,10 +24,17 @@ def make_plan(seed: int, tier: str, opts: dict) -> dict:
         _sp2.add_fast_sinks(s3, r)
         if _sp2.in_S(s3) is None:
             spec = s3
+            fast = True
     n_eps = r.choice([1, 2, 2, 3])
     eps = [driver.gen_episode(r, j, open_loop=spec["open_loop"], nsteps=r.randint(3, opts.get("max_steps", 9)), endings=("stop",), override_p=0.0) for j in range(n_eps)]
     pairs = [(m, p) for m in compiled.MODES for p in (True, False)]
     r.shuffle(pairs)
+    if fast:
+        eps = eps[:2]
+        for ep in eps:
+            ep["nsteps"] = min(ep["nsteps"], 5)  # many vertices per partition already
+        if pairs[0][0] == "mcs":
+            pairs[0] = (r.choice(["gen", "top"]), pairs[0][1])  # the uniform (scan) execution paths are what many slots per kind stress
     for ep in eps:
         ep["until_active"] = True
     wall = r.random() < opts.get("wall_p", 0.15)  # recordings made under WALL_CLOCK (virtual clock) must replay just the same
